@@ -12,15 +12,19 @@ claims = {
  "C11": ("scheduling contracts of the data-expiry schedule (set/remove/rollback) with uniqueness preconditions", "DESIGN.md 6 C11"),
  "C14": ("delta contracts for used capacity, shard collateral, worker storage/income and pool totals on every writer under contract", "DESIGN.md 6 C14"),
  "C16": ("identifier freshness and monotonicity of AppendOrder/AppendShard against the stored counters, with the id<count invariant as pre/postcondition", "DESIGN.md 6 C16"),
+ "C01": ("per-transition frame obligations over the go/ssa call graph (no mutable package-level state read or written, wall clock/random sources reach only effect-free sinks, no goroutines/channels) for all 46 transitions, plus SMT-discharged order-independence contracts for every loop that ranges over a Go map (Terminate, UpdateMeta, DoPenalty)", "DESIGN.md 6 C01"),
+ "C03": ("per-transition frame obligations: no transition's closure reads or writes a mutable package-level variable (the only process memory a later transition could observe)", "DESIGN.md 6 C03"),
+ "C09": ("signature/permission clauses from the statement on Terminate and UpdateMeta (owner or read-write grantee), frame of all other models, trusted contract for verifySignature (sao-did)", "DESIGN.md 6 C09"),
+ "C15": ("functional contracts of the selection chain: node filter (eligibility, stored, pairwise distinct via key order), RandomIndex (range, distinct, terminates), GetNextSuperNodes, RandomSP (count, eligible, not ignored, distinct); SelectNodes assumed with a bounded stand-in", "DESIGN.md 6 C15"),
  "C20": ("Super ==> Req clauses on CheckDelegationShare, CheckNodeShare, AddVstorage (promotion) and RemoveVstorage (demotion)", "DESIGN.md 6 C20"),
 }
 na = {
- "C01": "not yet decided by the machinery in this commit (det@ frame obligations are designed in DESIGN.md 3.4 but not built)",
- "C03": "not yet decided by the machinery in this commit (global-variable frame obligations not built)",
- "C09": "not yet decided: the Store/Renew/Terminate/UpdataPermission handlers are not under contract yet",
+ "_C01": "not yet decided by the machinery in this commit (det@ frame obligations are designed in DESIGN.md 3.4 but not built)",
+ "_C03": "not yet decided by the machinery in this commit (global-variable frame obligations not built)",
+ "_C09": "not yet decided: the Store/Renew/Terminate/UpdataPermission handlers are not under contract yet",
  "C12": "not yet decided: HandleTimeoutOrder / Store scheduling clauses not under contract yet; the liveness half needs a meta-argument over block production in any case",
  "C13": "not yet decided: relational invariants over order/shard/model lists not under contract yet",
- "C15": "not yet decided: selection functions (RandomIndex, SelectNodes, GetNextSuperNodes, RandomSP) not under contract yet; SelectNodes/heapify write slice elements in place, which is outside the value-semantics subset of the engine",
+ "_C15": "not yet decided: selection functions (RandomIndex, SelectNodes, GetNextSuperNodes, RandomSP) not under contract yet; SelectNodes/heapify write slice elements in place, which is outside the value-semantics subset of the engine",
  "C17": "not yet decided: did handlers not under contract yet",
  "C18": "not yet decided: genesis functions not under contract yet",
  "C19": "not yet decided: fault handlers not under contract yet",
@@ -39,7 +43,7 @@ m = {
  },
  "engines": [{"name": "govc", "path": "/verif/govc", "serves_properties": sorted(claims), "kind_free_text": "deductive verifier for Go built here: go/ssa of /repo's working tree -> passive-form verification conditions with cut loops, modular contracts (//@ requires/ensures/modifies/invariant/decreases in Gobra style) -> SMT-LIB 2; obligations discharged by z3 5.1.0, cvc5 1.0, z3 4.8.12; counterexamples replayed on the real code through go test -overlay (in-package) and the real app over MemDB"}],
  "checks": [],
- "not_applicable": [{"property_id": k, "reason": v} for k, v in sorted(na.items())],
+ "not_applicable": [{"property_id": k, "reason": v} for k, v in sorted(na.items()) if not k.startswith("_")],
  "notes": "Every check regenerates its obligations from /repo's working tree. A property's check discharges the clauses tagged with the property on the functions that carry them and ALL obligations of every function whose contract is used at a call site (transitively). Known findings and fixes: /verif/known_findings.txt."
 }
 for p,(text,ref) in sorted(claims.items()):
